@@ -14,49 +14,82 @@
 
    ReadyBeforeLock = TRUE reads `ready` before taking the lock (seeded change
    C09-m3): two setters can both succeed and the second overwrites what
-   released waiters are reading.  Non-vacuity witness.                      *)
+   released waiters are reading.  Non-vacuity witness.
+
+   A recycling consumer (Recycle = TRUE) polls with test, resets the eventual
+   as soon as it has seen it ready and waits for the next set.  The reset is
+   legal only when nobody is on the wait list -- which holds because the
+   setter wakes everybody BEFORE it releases the lock that test needs.
+   UnlockBeforeBcast = TRUE (seeded change C09-m6) releases the lock first:
+   the recycler can reset and enqueue itself while the setter has not yet
+   walked the list, and is then woken although nothing was set after its
+   reset (and the reset finds waiters on the list).  Non-vacuity witness.   *)
 EXTENDS Naturals, FiniteSets
-CONSTANTS Setters, Waiters, ReadyBeforeLock
-VARIABLES lk, ready, value, waiting, spc, sseen, sres, wpc, wgot
-vars == <<lk, ready, value, waiting, spc, sseen, sres, wpc, wgot>>
+CONSTANTS Setters, Waiters, ReadyBeforeLock, Recycle, UnlockBeforeBcast
+VARIABLES lk, ready, value, waiting, spc, sseen, sres, wpc, wgot, rpc, gen, rgen, badreset
+vars == <<lk, ready, value, waiting, spc, sseen, sres, wpc, wgot, rpc, gen, rgen, badreset>>
+R == 99   \* the recycler as a member of the wait list
 None == 0
 Init == /\ lk = None /\ ready = FALSE /\ value = 0 /\ waiting = {}
         /\ spc = [s \in Setters |-> "start"] /\ sseen = [s \in Setters |-> FALSE] /\ sres = [s \in Setters |-> "none"]
         /\ wpc = [w \in Waiters |-> "lock"] /\ wgot = [w \in Waiters |-> 0]
+        /\ rpc = (IF Recycle THEN "poll" ELSE "off") /\ gen = 0 /\ rgen = 0 /\ badreset = FALSE
 \* ---- setters (setter s writes the value s)
 SStart(s) == /\ spc[s] = "start"
              /\ IF ReadyBeforeLock THEN sseen' = [sseen EXCEPT ![s] = ready] ELSE sseen' = sseen
-             /\ spc' = [spc EXCEPT ![s] = "lock"] /\ UNCHANGED <<lk, ready, value, waiting, sres, wpc, wgot>>
+             /\ spc' = [spc EXCEPT ![s] = "lock"] /\ UNCHANGED <<lk, ready, value, waiting, sres, wpc, wgot, rpc, gen, rgen, badreset>>
 SLock(s) == /\ spc[s] = "lock" /\ lk = None /\ lk' = s
             /\ sseen' = IF ReadyBeforeLock THEN sseen ELSE [sseen EXCEPT ![s] = ready]
-            /\ spc' = [spc EXCEPT ![s] = "decide"] /\ UNCHANGED <<ready, value, waiting, sres, wpc, wgot>>
+            /\ spc' = [spc EXCEPT ![s] = "decide"] /\ UNCHANGED <<ready, value, waiting, sres, wpc, wgot, rpc, gen, rgen, badreset>>
 SDecide(s) == /\ spc[s] = "decide"
               /\ IF sseen[s] THEN spc' = [spc EXCEPT ![s] = "unlock"] /\ sres' = [sres EXCEPT ![s] = "error"] /\ UNCHANGED value
                  ELSE spc' = [spc EXCEPT ![s] = "setready"] /\ sres' = [sres EXCEPT ![s] = "ok"] /\ value' = s
-              /\ UNCHANGED <<lk, ready, waiting, sseen, wpc, wgot>>
-SSetReady(s) == /\ spc[s] = "setready" /\ ready' = TRUE /\ spc' = [spc EXCEPT ![s] = "bcast"]
-                /\ UNCHANGED <<lk, value, waiting, sseen, sres, wpc, wgot>>
-SBcast(s) == /\ spc[s] = "bcast" /\ waiting' = {} /\ spc' = [spc EXCEPT ![s] = "unlock"]
-             /\ UNCHANGED <<lk, ready, value, sseen, sres, wpc, wgot>>
-SUnlock(s) == /\ spc[s] = "unlock" /\ lk' = None /\ spc' = [spc EXCEPT ![s] = "done"]
-              /\ UNCHANGED <<ready, value, waiting, sseen, sres, wpc, wgot>>
+              /\ UNCHANGED <<lk, ready, waiting, sseen, wpc, wgot, rpc, gen, rgen, badreset>>
+SSetReady(s) == /\ spc[s] = "setready" /\ ready' = TRUE /\ gen' = gen + 1
+                /\ spc' = [spc EXCEPT ![s] = IF UnlockBeforeBcast THEN "unlock" ELSE "bcast"]
+                /\ UNCHANGED <<lk, value, waiting, sseen, sres, wpc, wgot, rpc, rgen, badreset>>
+SBcast(s) == /\ spc[s] = "bcast" /\ waiting' = {} /\ spc' = [spc EXCEPT ![s] = IF UnlockBeforeBcast THEN "done" ELSE "unlock"]
+             /\ UNCHANGED <<lk, ready, value, sseen, sres, wpc, wgot, rpc, gen, rgen, badreset>>
+SUnlock(s) == /\ spc[s] = "unlock" /\ lk' = None
+              /\ spc' = [spc EXCEPT ![s] = IF UnlockBeforeBcast /\ sres[s] = "ok" THEN "bcast" ELSE "done"]
+              /\ UNCHANGED <<ready, value, waiting, sseen, sres, wpc, wgot, rpc, gen, rgen, badreset>>
 \* ---- waiters
 WLock(w) == /\ wpc[w] = "lock" /\ lk = None /\ lk' = w + 100 /\ wpc' = [wpc EXCEPT ![w] = "test"]
-            /\ UNCHANGED <<ready, value, waiting, spc, sseen, sres, wgot>>
+            /\ UNCHANGED <<ready, value, waiting, spc, sseen, sres, wgot, rpc, gen, rgen, badreset>>
 WTest(w) == /\ wpc[w] = "test"
             /\ IF ready THEN wpc' = [wpc EXCEPT ![w] = "read"] /\ waiting' = waiting
                ELSE wpc' = [wpc EXCEPT ![w] = "sleep"] /\ waiting' = waiting \cup {w}
-            /\ lk' = None /\ UNCHANGED <<ready, value, spc, sseen, sres, wgot>>
+            /\ lk' = None /\ UNCHANGED <<ready, value, spc, sseen, sres, wgot, rpc, gen, rgen, badreset>>
 WWoken(w) == /\ wpc[w] = "sleep" /\ w \notin waiting /\ wpc' = [wpc EXCEPT ![w] = "read"]
-             /\ UNCHANGED <<lk, ready, value, waiting, spc, sseen, sres, wgot>>
+             /\ UNCHANGED <<lk, ready, value, waiting, spc, sseen, sres, wgot, rpc, gen, rgen, badreset>>
 WRead(w) == /\ wpc[w] = "read" /\ wgot' = [wgot EXCEPT ![w] = value] /\ wpc' = [wpc EXCEPT ![w] = "done"]
-            /\ UNCHANGED <<lk, ready, value, waiting, spc, sseen, sres>>
-Next == \/ \E s \in Setters : SStart(s) \/ SLock(s) \/ SDecide(s) \/ SSetReady(s) \/ SBcast(s) \/ SUnlock(s)
+            /\ UNCHANGED <<lk, ready, value, waiting, spc, sseen, sres, rpc, gen, rgen, badreset>>
+\* ---- the recycler: test (under the lock) until ready; reset; wait for the next set
+RKeep == <<value, spc, sseen, sres, wpc, wgot, gen>>
+RPoll == /\ rpc = "poll" /\ lk = None
+         /\ rpc' = (IF ready THEN "reset" ELSE "poll") /\ UNCHANGED <<lk, ready, waiting, rgen, badreset>> /\ UNCHANGED RKeep
+RReset == /\ rpc = "reset" /\ lk = None /\ ready' = FALSE /\ rgen' = gen
+          /\ badreset' = (badreset \/ waiting # {})
+          /\ rpc' = "wait" /\ UNCHANGED <<lk, waiting>> /\ UNCHANGED RKeep
+RWait == /\ rpc = "wait" /\ lk = None
+         /\ IF ready THEN rpc' = "returned" /\ waiting' = waiting ELSE rpc' = "sleep" /\ waiting' = waiting \cup {R}
+         /\ UNCHANGED <<lk, ready, rgen, badreset>> /\ UNCHANGED RKeep
+RWoken == /\ rpc = "sleep" /\ R \notin waiting /\ rpc' = "returned"
+          /\ UNCHANGED <<lk, ready, waiting, rgen, badreset>> /\ UNCHANGED RKeep
+Next == \/ RPoll \/ RReset \/ RWait \/ RWoken
+        \/ \E s \in Setters : SStart(s) \/ SLock(s) \/ SDecide(s) \/ SSetReady(s) \/ SBcast(s) \/ SUnlock(s)
         \/ \E w \in Waiters : WLock(w) \/ WTest(w) \/ WWoken(w) \/ WRead(w)
 Spec == Init /\ [][Next]_vars /\ WF_vars(Next)
 Winners == {s \in Setters : sres[s] = "ok"}
-OneWinner == Cardinality(Winners) <= 1
+\* one successful set per readiness period (a reset by the recycler opens a second period)
+OneWinner == Cardinality(Winners) <= 1 + (IF rpc \in {"wait", "sleep", "returned"} THEN 1 ELSE 0)
 \* a waiter that has returned read the value of the one successful set
 ValueOfWinner == \A w \in Waiters : wpc[w] = "done" => \E s \in Winners : wgot[w] = s
+\* the recycler comes back from its second wait only after a set that followed its reset, and its
+\* reset never found anybody on the wait list (resetting with waiters is undefined)
+RecyclerSeesNewSet == rpc = "returned" => gen > rgen
+ResetLegal == ~badreset
+\* (with a recycler a waiter that arrives after the reset may wait for ever: only the setters must finish)
+SettersReturn == <>(\A s \in Setters : spc[s] = "done")
 AllReturn == <>((\A w \in Waiters : wpc[w] = "done") /\ (\A s \in Setters : spc[s] = "done"))
 =============================================================================
